@@ -37,10 +37,41 @@ type c02Plan struct {
 	// over together with io.EOF (one Read returns n > 0 and the error). The packages are all there; the errors
 	// that follow them are the transport's.
 	EOFAtEnd bool `json:"eof_at_end,omitempty"`
+	// TinyPackets > 0: the response is cut into packets of that many body bytes throughout (its cut set is not
+	// written out); with the 2600-byte text value of row/text/big that is one package in well over 2048 packets.
+	TinyPackets int `json:"tiny_packets,omitempty"`
+}
+
+// a row with one large TEXT value (the layout of row/text/typ with 2600 bytes of data): in packets of one body byte
+// it is a single package spread over more than 2600 packets
+func init() {
+	typ, ok := zooIndex["row/text/typ"]
+	if !ok {
+		return
+	}
+	b := typ.Bytes
+	for l := 0; l+4 <= len(b); l++ {
+		at := len(b) - l - 4
+		if int(b[at])|int(b[at+1])<<8|int(b[at+2])<<16|int(b[at+3])<<24 == l {
+			const n = 2600
+			big := append([]byte{}, b[:at]...)
+			big = append(big, byte(n&0xff), byte(n>>8), 0, 0)
+			for i := 0; i < n; i++ {
+				big = append(big, byte('a'+i%26))
+			}
+			e := typ
+			e.Name, e.Bytes = "row/text/big", big
+			zooIndex[e.Name] = e
+			return
+		}
+	}
 }
 
 // c02Packets builds the packets of the faulted delivery.
 func c02Packets(body []byte, p *c02Plan) [][]byte {
+	if p.TinyPackets > 0 {
+		return peer.Packetise(body, peer.CutsBySize(len(body), p.TinyPackets), peer.BufResponse, 0, true)
+	}
 	pk := peer.Packetise(body, p.Cuts, peer.BufResponse, 0, true)
 	if len(p.Empty) == 0 {
 		return pk
@@ -186,6 +217,13 @@ func (c02) Gen(r *Rand, idx int, tier string) interface{} {
 		i -= 2048
 	}
 	// random part
+	if r.Intn(300) == 0 {
+		// one package in thousands of packets
+		p.Entries = []string{"rowfmt2/text", "row/text/big", "done/final"}
+		p.TinyPackets = 1 + r.Intn(2)
+		p.QueueSize = Pick(r, []int{0, 1, 100})
+		return p
+	}
 	if r.Pct(25) {
 		// also encodings on which decoder and layout disagree: what matters here is that fragmentation changes nothing
 		p.Entries = genResponseFrom(r, 8, append(append([]peer.Entry{}, zooList...), zooDisputed...))
@@ -481,6 +519,9 @@ func (c02) Run(plan interface{}, schedSeed uint64, replay []simrt.Choice, lenien
 	werr, herr := errsOnly(base.Recs), errsOnly(got.Recs)
 	if p.EOFAtEnd {
 		v.Probe("last-bytes-together-with-eof")
+	}
+	if p.TinyPackets > 0 {
+		v.Probe("one-package-in-more-than-2048-packets")
 	}
 	if len(herr) > len(werr) && !p.EOFAtEnd {
 		sig := "error"
